@@ -43,7 +43,7 @@ def run(s):
     s.hist['subset_cases_total'] = idx
     K.story_grid(s, 3, layouts=('between',), pretties=(False,), full=False)
     K.item_grid(s, 3, pretties=(False,), full=False, inters=(False,))
-    K.fuzz(s, 120 if q else 4000, K.kind_weights(1, 1, 0.3), steps=(5, 25),
+    K.fuzz(s, 120 if q else 12000, K.kind_weights(1, 1, 0.3), steps=(5, 25),
            shape_weights=(0.6, 0.25, 0.12, 0.03), selfref=0.1)
 
 
